@@ -345,7 +345,7 @@ impl Prop for C13 {
 }
 
 fn load_snapshot() -> std::collections::HashMap<String, (u16, String)> {
-    let s = std::fs::read_to_string("/verif/data/sqlstate_snapshot.json").unwrap_or_else(|_| "{}".into());
+    let s = std::fs::read_to_string(verif_dir().join("data/sqlstate_snapshot.json")).unwrap_or_else(|_| "{}".into());
     let v: serde_json::Value = serde_json::from_str(&s).unwrap_or(serde_json::Value::Null);
     let mut m = std::collections::HashMap::new();
     if let Some(o) = v.as_object() {
@@ -359,7 +359,7 @@ fn load_snapshot() -> std::collections::HashMap<String, (u16, String)> {
 }
 
 fn load_reference_codes() -> std::collections::HashMap<String, u16> {
-    let s = std::fs::read_to_string("/verif/data/mysql_crate_error_codes.json").unwrap_or_else(|_| "{}".into());
+    let s = std::fs::read_to_string(verif_dir().join("data/mysql_crate_error_codes.json")).unwrap_or_else(|_| "{}".into());
     let v: serde_json::Value = serde_json::from_str(&s).unwrap_or(serde_json::Value::Null);
     let mut m = std::collections::HashMap::new();
     if let Some(o) = v.as_object() {
